@@ -13,6 +13,7 @@ def full_addr(h):
 
 class C09(PropBase):
     id = 'C09'
+    address_change = 0.15
     rx_only_gaps = 0.1
     partial_passes = 0.25
     rx_only_passes = 0.4
